@@ -278,6 +278,10 @@ pub struct SelfCase {
     pub dial: u8,
     /// embed the node in a 3-mesh whose other members reach it through alias 1
     pub in_mesh: bool,
+    /// in a mesh: the node dials its alias BEFORE the other members connect (its self-handshake is pending when they first
+    /// list the alias under its id)
+    #[serde(default)]
+    pub dial_first: bool,
 }
 
 pub fn run_self(c: &SelfCase) -> CaseResult {
@@ -294,7 +298,7 @@ pub fn run_self(c: &SelfCase) -> CaseResult {
     let pick = |x: u8| [real, a1, a2][x as usize];
     net.aliases = vec![(a1, 0), (a2, 0)];
     net.self_source = vec![(real, pick(c.map[0])), (a1, pick(c.map[1])), (a2, pick(c.map[2]))];
-    if c.in_mesh {
+    let join = |net: &mut Net<Packet>| {
         // the other members know node 0 only by its alias 1
         net.configure_peer(1, a1);
         net.configure_peer(2, a1);
@@ -303,6 +307,9 @@ pub fn run_self(c: &SelfCase) -> CaseResult {
             net.tick();
             net.deliver_all(512);
         }
+    };
+    if c.in_mesh && !c.dial_first {
+        join(&mut net);
     }
     if c.dial == 3 {
         // both aliases are dialled in the same instant: two initiator objects of the same node are pending
@@ -317,13 +324,23 @@ pub fn run_self(c: &SelfCase) -> CaseResult {
         net.configure_peer(0, target);
     }
     let mut delivered_to_self = net.queue.iter().any(|w| w.from == real && net.node_index(&w.to) == Some(0));
-    for _ in 0..200 {
+    if c.in_mesh && c.dial_first {
+        delivered_to_self |= !net.deliver_all(512);
+        join(&mut net);
+    }
+    // in a mesh the run covers the periodic reset of the own-address list (300 s) and the announcement after it
+    let horizon = if c.in_mesh { 420 } else { 200 };
+    for t in 0..horizon {
         if !net.deliver_all(512) {
             return Err(Fail::new("livelock", "a node keeps answering its own handshake datagrams (more than 512 deliveries in one second)"));
         }
         no_self_peering(&net).map_err(|f| f.with("map", format!("{:?}", c.map)).with("in_mesh", c.in_mesh))?;
         net.tick();
         delivered_to_self |= net.queue.iter().any(|w| w.from == real && net.node_index(&w.to) == Some(0));
+        // one announcement interval (90 s) after the members joined they have listed the alias under node 0's id
+        if c.in_mesh && t == 100 && !net.nodes[0].verif_own_addresses().contains(&a1) {
+            return Err(Fail::new("alias_not_adopted", format!("100 s after the other members joined through {} it is still not in node 0's own-address list {:?}", a1, net.nodes[0].verif_own_addresses())).with("when", "after_one_interval"));
+        }
     }
     if c.in_mesh {
         // addresses that peers list under the node's own identity are adopted as its own
@@ -446,8 +463,9 @@ pub fn run(ctx: &Ctx) {
     for m in 0..27u8 {
         for dial in [1u8, 2, 3] {
             for in_mesh in [false, true] {
-                selfs.push(SelfCase { map: [m % 3, (m / 3) % 3, m / 9], dial, in_mesh });
+                selfs.push(SelfCase { map: [m % 3, (m / 3) % 3, m / 9], dial, in_mesh, dial_first: false });
             }
+            selfs.push(SelfCase { map: [m % 3, (m / 3) % 3, m / 9], dial, in_mesh: true, dial_first: true });
         }
     }
     let mut homed = vec![];
